@@ -535,26 +535,53 @@ class Lsp:
     def start(self):
         self.send("initialize", {"processId": None, "rootUri": "file://" + self.root, "capabilities": {}}, request=True)
         while True:
-            m = self.read(20)
+            m = self.read(30)
             if m is None:
-                return False
+                return None
             if m.get("id") == self.nid:
                 break
         self.send("initialized", {})
-        return True
+        return self.settle()          # the `initialized` handler publishes the initial diagnostics
 
-    def collect(self, expect, timeout=10):
-        """publishDiagnostics notifications: waits for `expect` of them, then drains briefly."""
+    def settle(self):
+        """Deterministic end-of-handler detection, no pipelining and no timing assumptions:
+        (1) wait for the handler's own window/logMessage (every handler logs before it takes the state lock; nothing
+        else is in flight, so the next log message is this handler's, and once it is visible the handler is already
+        queued on / holding the write lock); (2) send a hover request on a non-file: it needs the read lock, tokio's
+        RwLock is FIFO-fair, so its response is produced after the handler released the lock, i.e. after every
+        publishDiagnostics of the handler was handed to the output channel; (3) a second barrier request flushes a
+        message that may still have been in the (bounded) channel.  Timeouts below are only reached when the server
+        is dead.  Returns {uri: diagnostics} (last publish per uri inside this window) or None."""
         got = {}
-        n = 0
+
+        def pump(until):
+            while True:
+                m = self.read(30)
+                if m is None:
+                    return False
+                if m.get("method") == "textDocument/publishDiagnostics":
+                    got[m["params"]["uri"]] = m["params"]["diagnostics"]
+                if until(m):
+                    return True
+
+        if not pump(lambda m: m.get("method") == "window/logMessage"):
+            return None
+        for _ in range(2):
+            self.send("textDocument/hover", {"textDocument": {"uri": self.uri("Zz9Barrier")},
+                                             "position": {"line": 0, "character": 0}}, request=True)
+            want = self.nid
+            if not pump(lambda m: m.get("id") == want and "method" not in m):
+                return None
+        return got
+
+    def late(self, got, seconds):
+        """Failure path only: absorb anything that arrives late before a mismatch is reported."""
         while True:
-            m = self.read(timeout if n < expect else 0.05)
+            m = self.read(seconds)
             if m is None:
-                break
+                return got
             if m.get("method") == "textDocument/publishDiagnostics":
-                n += 1
                 got[m["params"]["uri"]] = m["params"]["diagnostics"]
-        return got, n
 
     def close(self):
         try:
@@ -682,10 +709,48 @@ def lsp_stream(ctx, tb, binary, nhist):
             for m, t in init.items():
                 os.makedirs(os.path.dirname(lsp.path(m)), exist_ok=True)
                 open(lsp.path(m), "w").write(t)
-            if not lsp.start():
-                ctx.violation("samlang-cli lsp did not answer initialize", {"history": [init, evs]}, no_input=True)
+            def diag_set(ds):
+                return sorted(set((d["range"]["start"]["line"], d["range"]["start"]["character"],
+                                   d["range"]["end"]["line"], d["range"]["end"]["character"],
+                                   canon_msg(d["message"])) for d in ds))
+
+            def compare(got, fmap, expectations):
+                """Per file: published list == expected list; a uri that is not a file must be absent or empty."""
+                problems = []
+                on_disk = sorted(m for m in fmap if os.path.exists(lsp.path(m)))
+                uris = {lsp.uri(m): m for m in on_disk}
+                for u, ds in got.items():
+                    if u not in uris and ds:
+                        problems.append(f"non-empty diagnostics published for {u.rsplit('/src/', 1)[-1]}, which is not a file: {diag_set(ds)[:2]}")
+                for m in on_disk:
+                    if lsp.uri(m) not in got:
+                        problems.append(f"no diagnostics published for the file of module {m}")
+                        continue
+                    real = diag_set(got[lsp.uri(m)])
+                    stats["modules_compared"] += 1
+                    stats["diagnostics_compared"] += len(real)
+                    for label, exp in expectations:
+                        want = sorted(set(decode_vtok(t) for t in exp.get(m, (0, frozenset(), None))[1]))
+                        if real != want:
+                            problems.append(f"module {m}: LSP published {len(real)} diagnostics {real[:2]}, {label} has {len(want)} {want[:2]}")
+                return problems
+
+            got = lsp.start()
+            if got is None:
+                ctx.violation("samlang-cli lsp did not answer initialize/initialized", {"history": [init, evs]}, no_input=True)
+                lsp.close()
                 return stats
             stats["histories"] += 1
+            exp0 = parse_obs(out[len(tb.cid)])
+            p0 = compare(got, init, [("ServerState::new on the initial files", exp0)]) if exp0 is not None else []
+            if p0:
+                got = lsp.late(got, 2)
+                p0 = compare(got, init, [("ServerState::new on the initial files", exp0)])
+            if p0:
+                ctx.violation("LSP handlers: diagnostics published on `initialized` differ from ServerState::new: " + p0[0],
+                              {"protocol": "lsp-stdio", "initial_files": init, "notifications": [], "problems": p0})
+                lsp.close()
+                return stats
             for ei, (ev, (ia, fa, fmap)) in enumerate(zip(evs, idx)):
                 k, v = ev
                 if k == "chg":
@@ -714,26 +779,18 @@ def lsp_stream(ctx, tb, binary, nhist):
                             os.remove(lsp.path(m))
                     lsp.send("workspace/didDeleteFiles", {"files": [{"uri": lsp.uri(m)} for m in v]})
                 stats["notifications"] += 1
-                on_disk = sorted(m for m in fmap if os.path.exists(lsp.path(m)))
-                got, n = lsp.collect(len(on_disk))
+                got = lsp.settle()
                 exp_fresh, exp_inc = parse_obs(out[fa]), parse_obs(out[ia])
-                problems = []
-                if exp_fresh is None or exp_inc is None:
-                    problems.append(f"harness failed: {out[ia][:80]} / {out[fa][:80]}")
+                if got is None:
+                    problems = ["the server stopped answering (no log message / barrier response within 30 s)"]
+                elif exp_fresh is None or exp_inc is None:
+                    problems = [f"harness failed: {out[ia][:80]} / {out[fa][:80]}"]
                 else:
-                    if sorted(got) != sorted(lsp.uri(m) for m in on_disk):
-                        problems.append(f"diagnostics published for {sorted(u.rsplit('/src/', 1)[-1] for u in got)}, files are {on_disk}")
-                    for m in on_disk:
-                        real = sorted(set((d["range"]["start"]["line"], d["range"]["start"]["character"],
-                                           d["range"]["end"]["line"], d["range"]["end"]["character"],
-                                           canon_msg(d["message"])) for d in got.get(lsp.uri(m), [])))
-                        stats["modules_compared"] += 1
-                        stats["diagnostics_compared"] += len(real)
-                        for label, exp in (("a fresh ServerState on the files", exp_fresh),
-                                           ("ServerState driven by the model's glue", exp_inc)):
-                            want = sorted(set(decode_vtok(t) for t in exp.get(m, (0, frozenset(), None))[1]))
-                            if real != want:
-                                problems.append(f"module {m}: LSP published {len(real)} diagnostics {real[:2]}, {label} has {len(want)} {want[:2]}")
+                    exps = [("a fresh ServerState on the files", exp_fresh), ("ServerState driven by the model's glue", exp_inc)]
+                    problems = compare(got, fmap, exps)
+                    if problems:
+                        got = lsp.late(got, 2)
+                        problems = compare(got, fmap, exps)
                 if problems:
                     ctx.violation("LSP handlers: published diagnostics differ from the expected ones after notification "
                                   f"#{ei} ({k}): " + problems[0],
